@@ -85,6 +85,24 @@ def pieces_of(p, splice, xnames=('x',)):
     return out
 
 
+_LEN = {}
+
+
+def length_dfa(op, k):
+    """DFA over bytes of the texts whose length n satisfies  n <op> k"""
+    if (op, k) not in _LEN:
+        from .aut import NFA, determinize
+        n = NFA()
+        st = [n.new() for _ in range(k + 2)]      # st[i]: length i (i <= k), st[k+1]: length > k
+        for i in range(k + 1):
+            n.add(st[i], 0, 255, st[i + 1])
+        n.add(st[k + 1], 0, 255, st[k + 1])
+        test = {'Gt': lambda m: m > k, 'Ge': lambda m: m >= k, 'Lt': lambda m: m < k, 'Le': lambda m: m <= k, 'Eq': lambda m: m == k, 'Ne': lambda m: m != k}[op]
+        fin = [st[i] for i in range(k + 2) if test(i)]
+        _LEN[(op, k)] = determinize(n, st[0], fin, 255).minimize()
+    return _LEN[(op, k)]
+
+
 class Builder:
     def __init__(self, owner, ctx, xtype):
         self.owner = owner
@@ -267,8 +285,8 @@ class Builder:
                 if name is None:
                     raise Unhandled(f'path suffix test {atom[1]!r}')
                 cons.append((self.c_infix(ML, 'p+', 'p-', lang.predicate_dfa(name, False)), pol))
-            elif k == 'cmp' and atom[1] == 'Gt' and isinstance(atom[3], Aff) and atom[3] == Aff({}, 3) and repr(atom[2]) == 'pend -pstart':
-                cons.append((self.c_infix(ML, 'p+', 'p-', lang.predicate_dfa('longer-than-3', False)), pol))
+            elif k == 'cmp' and atom[1] in ('Gt', 'Ge', 'Lt', 'Le', 'Eq', 'Ne') and isinstance(atom[3], Aff) and atom[3].is_const() and 0 < atom[3].c <= 64 and repr(atom[2]) == 'pend -pstart':
+                cons.append((self.c_infix(ML, 'p+', 'p-', length_dfa(atom[1], atom[3].c)), pol))
             elif k == 'cmp' and atom[1] == 'Gt' and repr(atom[2]) == 'pstart' and isinstance(atom[3], Aff) and atom[3] == Aff():
                 cons.append((self.c_at0(ML, 'p+'), not pol))
             elif k == 'cmp' and atom[1] in ('Eq', 'Ne') and {repr(atom[2]), repr(atom[3])} == {'pstart', 'pend'}:
